@@ -7,6 +7,7 @@ C2  t = V ; <stmt using t once> ->  <stmt with V>     (level 2 only; same condit
 C3  if not c: A else: B         ->  if c: B else: A;  x if not c else y -> y if c else x;  with an else arm the test is also
                                     made positive:  `is not` -> `is`, `!=` -> `==`, `not in` -> `in`  (arms swapped)
 C4  a > b -> b < a ;  a >= b -> b <= a   (single-operator comparisons)
+C6  x = x + e -> x += e  (also - and *), marked `_fjsa_rebind` (it creates a new object: not an in-place update of a list)
 C5  module-level import aliases are renamed to the conventional name (import numpy as anything -> np, jax.numpy -> jnp,
     haiku -> hk, tensorflow -> tf, `from p import m as x` -> m) when that name is free in the file
 
@@ -121,6 +122,16 @@ class _Polarity(ast.NodeTransformer):
     if sw:
       node.test = t
       node.body, node.orelse = node.orelse, node.body
+    return node
+
+  def visit_Assign(self, node):
+    self.generic_visit(node)
+    v = node.value
+    if (len(node.targets) == 1 and isinstance(node.targets[0], ast.Name) and isinstance(v, ast.BinOp) and isinstance(v.op, (ast.Add, ast.Sub, ast.Mult))
+        and isinstance(v.left, ast.Name) and v.left.id == node.targets[0].id):
+      new = ast.copy_location(ast.AugAssign(target=node.targets[0], op=v.op, value=v.right), node)
+      new._fjsa_rebind = True
+      return new
     return node
 
   def visit_Compare(self, node):
